@@ -691,6 +691,44 @@ fn c06_group(g: &C06Group) -> (Vec<Violation>, CaseOut) {
                 }
             }
         }
+        if canary || g.balance_wide {
+            // the party's own shares of the masks of its own input wires are never disclosed: the
+            // vector of those bits (>= 64 of them) must not show up in its outgoing traffic
+            let circuit = s.circuit();
+            for p in 0..n {
+                let Some(pr) = run.res.probes[p].iter().find(|x| x.site == "input_mask_bits") else { continue };
+                let own: Vec<bool> = circuit
+                    .insts
+                    .iter()
+                    .enumerate()
+                    .filter_map(|(w, i)| match i.op {
+                        polytune::garble_lang::register_circuit::Op::Input(inp) if inp.party as usize == p => pr.data.get(w).map(|b| *b != 0),
+                        _ => None,
+                    })
+                    .collect();
+                if own.len() < 64 {
+                    continue;
+                }
+                let needle = &own[..own.len().min(128)];
+                let as_bytes: Vec<u8> = needle.iter().map(|b| *b as u8).collect();
+                for m in run.res.transcript.iter().filter(|m| m.from == p) {
+                    let mut bs = vec![];
+                    if let Ok(val) = schema::decode_msg(&m.phase, &m.data) {
+                        bool_stream(&val, &mut bs);
+                    }
+                    if contains_run(&bs, needle) || m.data.windows(as_bytes.len()).any(|w| w == as_bytes.as_slice()) {
+                        v.push(viol(
+                            "own-mask-share-disclosed",
+                            &format!("own-mask-share-disclosed:{}", m.phase),
+                            format!("party {p}'s own shares of the masks of its first {} input wires appear in its '{}' message to party {}", needle.len(), m.phase, m.to),
+                            &sv,
+                        ));
+                        return (v, out);
+                    }
+                }
+                out.count("own_share_vectors_scanned", 1);
+            }
+        }
         if canary {
             // no run of 128 plain input bits in the party's traffic
             for p in 0..n {
